@@ -33,7 +33,8 @@ def jobs(tier):
                     # the same under a secret guard (g symbolic) and with error checking off
                     js.append(dict(base, name="%s/%s/witness-guard" % (e.name, tagc), analysis="witness", cfg=dict(cfg, guard="sym")))
                     js.append(dict(base, name="%s/%s/wire-guard" % (e.name, tagc), analysis="wire", cfg=dict(cfg, guard="sym", track_all=True)))
-                    js.append(dict(base, name="%s/%s/wire-ignore" % (e.name, tagc), analysis="wire", cfg=dict(cfg, ignore=True, track_all=True)))
+                    if "truediv" not in e.tags:
+                        js.append(dict(base, name="%s/%s/wire-ignore" % (e.name, tagc), analysis="wire", cfg=dict(cfg, ignore=True, track_all=True)))
                 if e.tags & SOUND:
                     # results that do not go through the (unchecked-quotient) division gadget must be uniquely determined
                     js.append(dict(base, name="%s/%s/unique" % (e.name, tagc), analysis="unique",
